@@ -92,7 +92,7 @@ ufm_log!(ufm512, 288, 6, 6, 8);
 #[cfg(kani)]
 ufm_log!(ufm1024, 640, 10, 8, 8);
 
-//@ harness name=threefish_leaf_mix prop=C10,C01,C20 tier=quick bits=136 est=60 desc="L: crate::mix(r, x) == MIX and crate::inv_mix(r, y) == MIX^-1 of Skein 1.3 for every r: u8 and every 128-bit argument; inv_mix(r, mix(r, x)) == x and mix(r, inv_mix(r, y)) == y"
+//@ harness name=threefish_leaf_mix prop=C10,C01,C20 tier=quick bits=136 est=10 desc="L: crate::mix(r, x) == MIX and crate::inv_mix(r, y) == MIX^-1 of Skein 1.3 for every r: u8 and every 128-bit argument; inv_mix(r, mix(r, x)) == x and mix(r, inv_mix(r, y)) == y"
 verif_harness! {
     name: threefish_leaf_mix,
     bytes: 17,
@@ -218,6 +218,23 @@ macro_rules! tf_inst {
                 let e = r::decrypt_with::<NW, NS, _>(&sk, &p, stub_inv_mix);
                 Some(same_w(&b, &e))
             }
+            /// D variants: the oracle runs on the crate's real mix / inv_mix (== MIX / MIX^-1 by threefish_leaf_mix), no stubs
+            pub fn enc_d(inp: &[u8]) -> Option<bool> {
+                let (c, sk) = arb(inp);
+                let p = words(inp, BLK);
+                let mut b = p;
+                c.encrypt_block_u64(&mut b);
+                let e = r::encrypt_with::<NW, NS, _>(&sk, &p, crate::mix);
+                Some(same_w(&b, &e))
+            }
+            pub fn dec_d(inp: &[u8]) -> Option<bool> {
+                let (c, sk) = arb(inp);
+                let p = words(inp, BLK);
+                let mut b = p;
+                c.decrypt_block_u64(&mut b);
+                let e = r::decrypt_with::<NW, NS, _>(&sk, &p, crate::inv_mix);
+                Some(same_w(&b, &e))
+            }
             fn same_bytes(a: &[u8], w: &[u64; NW]) -> bool {
                 let mut e = [0u8; 8 * NW];
                 r::words_to_le(w, &mut e);
@@ -300,14 +317,14 @@ tf_inst!(t1024, Threefish1024, nw = 16, ns = 21, log = ufm1024);
 
 // ------------------------------------------------------------------ Threefish-256 (subkey table 608 bytes, block 32 bytes, 288 MIX calls per harness)
 
-//@ harness name=tf256_ks prop=C10,C20 tier=quick bits=384 est=60 desc="D: Threefish256 new_with_tweak_u64 == Skein 1.3 key schedule (C240, t2 = t0^t1, 19 subkeys); new_with_tweak(bytes) == same on LE words; KeyInit::new == zero tweak; all keys and tweaks"
+//@ harness name=tf256_ks prop=C10,C20 tier=quick bits=384 est=48 desc="D: Threefish256 new_with_tweak_u64 == Skein 1.3 key schedule (C240, t2 = t0^t1, 19 subkeys); new_with_tweak(bytes) == same on LE words; KeyInit::new == zero tweak; all keys and tweaks"
 verif_harness! {
     name: tf256_ks,
     bytes: 48,
     unwind: 140,
     prop: |inp| { t256::ks(inp) }
 }
-//@ harness name=tf256_enc prop=C10,C20 tier=quick bits=5120 stub=1 est=200 desc="W: Threefish256::encrypt_block_u64 == oracle (72 rounds, subkey every 4 rounds, permutation pi, rotation table) on an ARBITRARY subkey table, all blocks; mix uninterpreted"
+//@ harness name=tf256_enc prop=C10,C20 tier=quick bits=5120 stub=1 est=110 desc="W: Threefish256::encrypt_block_u64 == oracle (72 rounds, subkey every 4 rounds, permutation pi, rotation table) on an ARBITRARY subkey table, all blocks; mix uninterpreted"
 verif_harness! {
     name: tf256_enc,
     bytes: 640,
@@ -315,7 +332,7 @@ verif_harness! {
     stubs: [(crate::mix, t256::stub_mix), (crate::inv_mix, t256::stub_inv_mix)],
     prop: |inp| { t256::enc(inp) }
 }
-//@ harness name=tf256_dec prop=C10,C20 tier=quick bits=5120 stub=1 est=200 desc="W: Threefish256::decrypt_block_u64 == oracle decryption on an ARBITRARY subkey table, all blocks; inv_mix uninterpreted"
+//@ harness name=tf256_dec prop=C10,C20 tier=quick bits=5120 stub=1 est=97 desc="W: Threefish256::decrypt_block_u64 == oracle decryption on an ARBITRARY subkey table, all blocks; inv_mix uninterpreted"
 verif_harness! {
     name: tf256_dec,
     bytes: 640,
@@ -323,7 +340,7 @@ verif_harness! {
     stubs: [(crate::mix, t256::stub_mix), (crate::inv_mix, t256::stub_inv_mix)],
     prop: |inp| { t256::dec(inp) }
 }
-//@ harness name=tf256_bytes_enc prop=C10,C20 tier=quick bits=5120 stub=1 est=200 desc="W: Threefish256 encrypt_block (bytes) == LE(encrypt_block_u64(LE words)), ARBITRARY subkey table, all blocks"
+//@ harness name=tf256_bytes_enc prop=C10,C20 tier=quick bits=5120 stub=1 est=141 need=8 desc="W: Threefish256 encrypt_block (bytes) == LE(encrypt_block_u64(LE words)), ARBITRARY subkey table, all blocks"
 verif_harness! {
     name: tf256_bytes_enc,
     bytes: 640,
@@ -331,7 +348,7 @@ verif_harness! {
     stubs: [(crate::mix, t256::stub_mix), (crate::inv_mix, t256::stub_inv_mix)],
     prop: |inp| { t256::bytes_enc(inp) }
 }
-//@ harness name=tf256_bytes_dec prop=C10,C20 tier=quick bits=5120 stub=1 est=200 desc="W: Threefish256 decrypt_block (bytes) == LE(decrypt_block_u64(LE words)), ARBITRARY subkey table, all blocks"
+//@ harness name=tf256_bytes_dec prop=C10,C20 tier=quick bits=5120 stub=1 est=120 need=8 desc="W: Threefish256 decrypt_block (bytes) == LE(decrypt_block_u64(LE words)), ARBITRARY subkey table, all blocks"
 verif_harness! {
     name: tf256_bytes_dec,
     bytes: 640,
@@ -339,7 +356,7 @@ verif_harness! {
     stubs: [(crate::mix, t256::stub_mix), (crate::inv_mix, t256::stub_inv_mix)],
     prop: |inp| { t256::bytes_dec(inp) }
 }
-//@ harness name=tf256_rt_ed prop=C01,C20 tier=quick bits=5120 stub=1 est=200 desc="W: Threefish256 decrypt_block_u64(encrypt_block_u64(b)) == b on an ARBITRARY subkey table (any key, any tweak), all blocks; mix / inv_mix uninterpreted mutual inverses (leaf lemma)"
+//@ harness name=tf256_rt_ed prop=C01,C20 tier=quick bits=5120 stub=1 est=120 desc="W: Threefish256 decrypt_block_u64(encrypt_block_u64(b)) == b on an ARBITRARY subkey table (any key, any tweak), all blocks; mix / inv_mix uninterpreted mutual inverses (leaf lemma)"
 verif_harness! {
     name: tf256_rt_ed,
     bytes: 640,
@@ -347,7 +364,7 @@ verif_harness! {
     stubs: [(crate::mix, t256::stub_mix), (crate::inv_mix, t256::stub_inv_mix)],
     prop: |inp| { t256::rt_ed(inp) }
 }
-//@ harness name=tf256_rt_de prop=C01,C20 tier=quick bits=5120 stub=1 est=200 desc="W: Threefish256 encrypt_block_u64(decrypt_block_u64(b)) == b on an ARBITRARY subkey table, all blocks"
+//@ harness name=tf256_rt_de prop=C01,C20 tier=quick bits=5120 stub=1 est=109 desc="W: Threefish256 encrypt_block_u64(decrypt_block_u64(b)) == b on an ARBITRARY subkey table, all blocks"
 verif_harness! {
     name: tf256_rt_de,
     bytes: 640,
@@ -355,7 +372,7 @@ verif_harness! {
     stubs: [(crate::mix, t256::stub_mix), (crate::inv_mix, t256::stub_inv_mix)],
     prop: |inp| { t256::rt_de(inp) }
 }
-//@ harness name=tf256_rt_bytes prop=C01,C20 tier=quick bits=5120 stub=1 est=200 desc="W: Threefish256 decrypt_block(encrypt_block(b)) == b through the byte entry points, ARBITRARY subkey table, all blocks"
+//@ harness name=tf256_rt_bytes prop=C01,C20 tier=quick bits=5120 stub=1 est=115 desc="W: Threefish256 decrypt_block(encrypt_block(b)) == b through the byte entry points, ARBITRARY subkey table, all blocks"
 verif_harness! {
     name: tf256_rt_bytes,
     bytes: 640,
@@ -366,14 +383,14 @@ verif_harness! {
 
 // ------------------------------------------------------------------ Threefish-512 (subkey table 1216 bytes, block 64 bytes, 576 MIX calls per harness)
 
-//@ harness name=tf512_ks prop=C10,C20 tier=quick bits=640 est=60 desc="D: Threefish512 new_with_tweak_u64 == Skein 1.3 key schedule (C240, t2 = t0^t1, 19 subkeys); new_with_tweak(bytes) == same on LE words; KeyInit::new == zero tweak; all keys and tweaks"
+//@ harness name=tf512_ks prop=C10,C20 tier=quick bits=640 est=67 desc="D: Threefish512 new_with_tweak_u64 == Skein 1.3 key schedule (C240, t2 = t0^t1, 19 subkeys); new_with_tweak(bytes) == same on LE words; KeyInit::new == zero tweak; all keys and tweaks"
 verif_harness! {
     name: tf512_ks,
     bytes: 80,
     unwind: 140,
     prop: |inp| { t512::ks(inp) }
 }
-//@ harness name=tf512_enc prop=C10,C20 tier=quick bits=10240 stub=1 est=200 desc="W: Threefish512::encrypt_block_u64 == oracle (72 rounds, subkey every 4 rounds, permutation pi, rotation table) on an ARBITRARY subkey table, all blocks; mix uninterpreted"
+//@ harness name=tf512_enc prop=C10,C20 tier=quick bits=10240 stub=1 est=285 need=10 desc="W: Threefish512::encrypt_block_u64 == oracle (72 rounds, subkey every 4 rounds, permutation pi, rotation table) on an ARBITRARY subkey table, all blocks; mix uninterpreted"
 verif_harness! {
     name: tf512_enc,
     bytes: 1280,
@@ -381,7 +398,7 @@ verif_harness! {
     stubs: [(crate::mix, t512::stub_mix), (crate::inv_mix, t512::stub_inv_mix)],
     prop: |inp| { t512::enc(inp) }
 }
-//@ harness name=tf512_dec prop=C10,C20 tier=quick bits=10240 stub=1 est=200 desc="W: Threefish512::decrypt_block_u64 == oracle decryption on an ARBITRARY subkey table, all blocks; inv_mix uninterpreted"
+//@ harness name=tf512_dec prop=C10,C20 tier=quick bits=10240 stub=1 est=239 need=10 desc="W: Threefish512::decrypt_block_u64 == oracle decryption on an ARBITRARY subkey table, all blocks; inv_mix uninterpreted"
 verif_harness! {
     name: tf512_dec,
     bytes: 1280,
@@ -389,7 +406,7 @@ verif_harness! {
     stubs: [(crate::mix, t512::stub_mix), (crate::inv_mix, t512::stub_inv_mix)],
     prop: |inp| { t512::dec(inp) }
 }
-//@ harness name=tf512_bytes_enc prop=C10,C20 tier=quick bits=10240 stub=1 est=200 mem=26 desc="W: Threefish512 encrypt_block (bytes) == LE(encrypt_block_u64(LE words)), ARBITRARY subkey table, all blocks"
+//@ harness name=tf512_bytes_enc prop=C10,C20 tier=quick bits=10240 stub=1 est=286 mem=26 need=15 desc="W: Threefish512 encrypt_block (bytes) == LE(encrypt_block_u64(LE words)), ARBITRARY subkey table, all blocks"
 verif_harness! {
     name: tf512_bytes_enc,
     bytes: 1280,
@@ -397,7 +414,7 @@ verif_harness! {
     stubs: [(crate::mix, t512::stub_mix), (crate::inv_mix, t512::stub_inv_mix)],
     prop: |inp| { t512::bytes_enc(inp) }
 }
-//@ harness name=tf512_bytes_dec prop=C10,C20 tier=quick bits=10240 stub=1 est=200 mem=26 desc="W: Threefish512 decrypt_block (bytes) == LE(decrypt_block_u64(LE words)), ARBITRARY subkey table, all blocks"
+//@ harness name=tf512_bytes_dec prop=C10,C20 tier=quick bits=10240 stub=1 est=265 mem=26 need=15 desc="W: Threefish512 decrypt_block (bytes) == LE(decrypt_block_u64(LE words)), ARBITRARY subkey table, all blocks"
 verif_harness! {
     name: tf512_bytes_dec,
     bytes: 1280,
@@ -405,7 +422,7 @@ verif_harness! {
     stubs: [(crate::mix, t512::stub_mix), (crate::inv_mix, t512::stub_inv_mix)],
     prop: |inp| { t512::bytes_dec(inp) }
 }
-//@ harness name=tf512_rt_ed prop=C01,C20 tier=quick bits=10240 stub=1 est=200 desc="W: Threefish512 decrypt_block_u64(encrypt_block_u64(b)) == b on an ARBITRARY subkey table (any key, any tweak), all blocks; mix / inv_mix uninterpreted mutual inverses (leaf lemma)"
+//@ harness name=tf512_rt_ed prop=C01,C20 tier=thorough bits=10240 stub=1 est=348 need=10 desc="W: Threefish512 decrypt_block_u64(encrypt_block_u64(b)) == b on an ARBITRARY subkey table (any key, any tweak), all blocks; mix / inv_mix uninterpreted mutual inverses (leaf lemma)"
 verif_harness! {
     name: tf512_rt_ed,
     bytes: 1280,
@@ -413,7 +430,7 @@ verif_harness! {
     stubs: [(crate::mix, t512::stub_mix), (crate::inv_mix, t512::stub_inv_mix)],
     prop: |inp| { t512::rt_ed(inp) }
 }
-//@ harness name=tf512_rt_de prop=C01,C20 tier=quick bits=10240 stub=1 est=200 desc="W: Threefish512 encrypt_block_u64(decrypt_block_u64(b)) == b on an ARBITRARY subkey table, all blocks"
+//@ harness name=tf512_rt_de prop=C01,C20 tier=quick bits=10240 stub=1 est=300 need=10 desc="W: Threefish512 encrypt_block_u64(decrypt_block_u64(b)) == b on an ARBITRARY subkey table, all blocks"
 verif_harness! {
     name: tf512_rt_de,
     bytes: 1280,
@@ -421,7 +438,7 @@ verif_harness! {
     stubs: [(crate::mix, t512::stub_mix), (crate::inv_mix, t512::stub_inv_mix)],
     prop: |inp| { t512::rt_de(inp) }
 }
-//@ harness name=tf512_rt_bytes prop=C01,C20 tier=quick bits=10240 stub=1 est=200 desc="W: Threefish512 decrypt_block(encrypt_block(b)) == b through the byte entry points, ARBITRARY subkey table, all blocks"
+//@ harness name=tf512_rt_bytes prop=C01,C20 tier=thorough bits=10240 stub=1 est=305 need=10 desc="W: Threefish512 decrypt_block(encrypt_block(b)) == b through the byte entry points, ARBITRARY subkey table, all blocks"
 verif_harness! {
     name: tf512_rt_bytes,
     bytes: 1280,
@@ -430,69 +447,32 @@ verif_harness! {
     prop: |inp| { t512::rt_bytes(inp) }
 }
 
-// ------------------------------------------------------------------ Threefish-1024 (subkey table 2688 bytes, block 128 bytes, 1280 MIX calls per harness)
+// ------------------------------------------------------------------ Threefish-1024 (subkey table 2688 bytes, block 128 bytes)
 
-//@ harness name=tf1024_ks prop=C10,C20 tier=quick bits=1152 est=60 desc="D: Threefish1024 new_with_tweak_u64 == Skein 1.3 key schedule (C240, t2 = t0^t1, 21 subkeys); new_with_tweak(bytes) == same on LE words; KeyInit::new == zero tweak; all keys and tweaks"
+//@ harness name=tf1024_ks prop=C10,C20 tier=quick bits=1152 est=127 desc="D: Threefish1024 new_with_tweak_u64 == Skein 1.3 key schedule (C240, t2 = t0^t1, 21 subkeys); new_with_tweak(bytes) == same on LE words; KeyInit::new == zero tweak; all keys and tweaks"
 verif_harness! {
     name: tf1024_ks,
     bytes: 144,
     unwind: 140,
     prop: |inp| { t1024::ks(inp) }
 }
-//@ harness name=tf1024_enc prop=C10,C20 tier=thorough bits=22528 stub=1 est=1800 mem=30 desc="W: Threefish1024::encrypt_block_u64 == oracle (80 rounds, subkey every 4 rounds, permutation pi, rotation table) on an ARBITRARY subkey table, all blocks; mix uninterpreted"
+// Not planned: the W queries of Threefish-1024 (tf1024_enc, _dec, _bytes_enc, _bytes_dec, _rt_ed, _rt_de, _rt_bytes with the
+// 640-entry log ufm1024: 1280 uninterpreted MIX calls per query).  Measured with one job and a 30 GB address-space cap:
+// tf1024_enc ran out of memory during symbolic execution (12.9 GB resident, no SAT instance produced); the 512-bit
+// instances with 576 calls already need 8.4 - 14 GB.  What is covered for Threefish-1024: the key schedule (tf1024_ks),
+// the MIX leaf for every rotation count (threefish_leaf_mix), and the same generic round code (macro impl_threefish!)
+// as Threefish-256/512, whose W queries pass.  The module t1024 keeps the W functions for native replay / future use.
+//@ harness name=tf1024_enc_d prop=C10,C20 tier=thorough bits=22528 est=1800 mem=28 desc="D: Threefish1024::encrypt_block_u64 == oracle (80 rounds, subkey every 4 rounds, permutation pi, rotation table) run on the crate's own mix (== MIX by threefish_leaf_mix), ARBITRARY subkey table, all blocks; nothing stubbed"
 verif_harness! {
-    name: tf1024_enc,
+    name: tf1024_enc_d,
     bytes: 2816,
     unwind: 140,
-    stubs: [(crate::mix, t1024::stub_mix), (crate::inv_mix, t1024::stub_inv_mix)],
-    prop: |inp| { t1024::enc(inp) }
+    prop: |inp| { t1024::enc_d(inp) }
 }
-//@ harness name=tf1024_dec prop=C10,C20 tier=thorough bits=22528 stub=1 est=1800 mem=30 desc="W: Threefish1024::decrypt_block_u64 == oracle decryption on an ARBITRARY subkey table, all blocks; inv_mix uninterpreted"
+//@ harness name=tf1024_dec_d prop=C10,C20 tier=thorough bits=22528 est=1800 mem=28 desc="D: Threefish1024::decrypt_block_u64 == oracle decryption run on the crate's own inv_mix (== MIX^-1 by threefish_leaf_mix), ARBITRARY subkey table, all blocks; nothing stubbed"
 verif_harness! {
-    name: tf1024_dec,
+    name: tf1024_dec_d,
     bytes: 2816,
     unwind: 140,
-    stubs: [(crate::mix, t1024::stub_mix), (crate::inv_mix, t1024::stub_inv_mix)],
-    prop: |inp| { t1024::dec(inp) }
+    prop: |inp| { t1024::dec_d(inp) }
 }
-//@ harness name=tf1024_bytes_enc prop=C10,C20 tier=thorough bits=22528 stub=1 est=1800 mem=30 desc="W: Threefish1024 encrypt_block (bytes) == LE(encrypt_block_u64(LE words)), ARBITRARY subkey table, all blocks"
-verif_harness! {
-    name: tf1024_bytes_enc,
-    bytes: 2816,
-    unwind: 140,
-    stubs: [(crate::mix, t1024::stub_mix), (crate::inv_mix, t1024::stub_inv_mix)],
-    prop: |inp| { t1024::bytes_enc(inp) }
-}
-//@ harness name=tf1024_bytes_dec prop=C10,C20 tier=thorough bits=22528 stub=1 est=1800 mem=30 desc="W: Threefish1024 decrypt_block (bytes) == LE(decrypt_block_u64(LE words)), ARBITRARY subkey table, all blocks"
-verif_harness! {
-    name: tf1024_bytes_dec,
-    bytes: 2816,
-    unwind: 140,
-    stubs: [(crate::mix, t1024::stub_mix), (crate::inv_mix, t1024::stub_inv_mix)],
-    prop: |inp| { t1024::bytes_dec(inp) }
-}
-//@ harness name=tf1024_rt_ed prop=C01,C20 tier=thorough bits=22528 stub=1 est=1800 mem=30 desc="W: Threefish1024 decrypt_block_u64(encrypt_block_u64(b)) == b on an ARBITRARY subkey table (any key, any tweak), all blocks; mix / inv_mix uninterpreted mutual inverses (leaf lemma)"
-verif_harness! {
-    name: tf1024_rt_ed,
-    bytes: 2816,
-    unwind: 140,
-    stubs: [(crate::mix, t1024::stub_mix), (crate::inv_mix, t1024::stub_inv_mix)],
-    prop: |inp| { t1024::rt_ed(inp) }
-}
-//@ harness name=tf1024_rt_de prop=C01,C20 tier=thorough bits=22528 stub=1 est=1800 mem=30 desc="W: Threefish1024 encrypt_block_u64(decrypt_block_u64(b)) == b on an ARBITRARY subkey table, all blocks"
-verif_harness! {
-    name: tf1024_rt_de,
-    bytes: 2816,
-    unwind: 140,
-    stubs: [(crate::mix, t1024::stub_mix), (crate::inv_mix, t1024::stub_inv_mix)],
-    prop: |inp| { t1024::rt_de(inp) }
-}
-//@ harness name=tf1024_rt_bytes prop=C01,C20 tier=thorough bits=22528 stub=1 est=1800 mem=30 desc="W: Threefish1024 decrypt_block(encrypt_block(b)) == b through the byte entry points, ARBITRARY subkey table, all blocks"
-verif_harness! {
-    name: tf1024_rt_bytes,
-    bytes: 2816,
-    unwind: 140,
-    stubs: [(crate::mix, t1024::stub_mix), (crate::inv_mix, t1024::stub_inv_mix)],
-    prop: |inp| { t1024::rt_bytes(inp) }
-}
-
